@@ -21,15 +21,24 @@ invariant of the same kind, `AllGood`, for *every* entry of the registry:
   `enum_definition::build` of the definition registered under its path – the last two in a state that satisfies
   the invariants of the run (`C12.StateOkB`, `Exec.Inv`) and whose (post-)registry the registry extends.
 
-and an invariant `XvGood` on the extern values of the stored modules (each is the conversion of an extern value
-written in a module of the case).  `case_good` / `case_xvals` are the whole-run theorems; `Props/CaseLift.lean`
-uses them to lift the per-item theorems of C01, C06, C08, C15, C16 and C17 to the final registry and the emitted
-files of every accepted case.
+and an invariant `ModsGood (ModOf c)` on the stored modules (each extern value is the conversion of an extern value
+written in a module of the case, each stored function block is one written in the case); every item was built in a
+state whose modules satisfy it.  `case_good` / `case_type_origin` / `case_enum_origin` / `case_xvals` are the whole-run
+theorems; `case_vft_master`, `case_fns_master` and `case_attrs_master` combine them with the decomposition of an
+accepted `type_definition::build` (`buildType_full`) into statements about every emitted struct of the final registry.
+`Props/CaseLift.lean` uses them to lift the per-item theorems of C01, C06, C08, C15, C16 and C17 to the final
+registry and the emitted files of every accepted case.
+
+Not carried: "every resolved item of the registry is listed in the definition paths of its module".  It is false when
+two modules of a case have the same path (`add_module` replaces the stored module, whose definition paths start empty
+again, while the registry keeps the earlier module's items), so the statements about emitted files go from the files to
+the registry (`files_items`), not the other way round.
 
 ## Specification part (definitions only)
 -/
 namespace PyxisVerif.CaseLift
 open Gen Layout
+
 
 /-- `item` is a definition written in a module of the case, and `p` is the path it is registered under -/
 def Declared (c : Case) (p : Path) (item : G.Item) : Prop :=
@@ -43,8 +52,11 @@ def declItem (p : Path) (item : G.Item) : ItemDef :=
 def builtItem (p : Path) (item : G.Item) (r : Resolved) : ItemDef :=
   { vis := item.vis, path := p, state := .res r, cat := .defined }
 
-/-- where a resolved entry `(p, i)` of registry `reg`, with resolved part `r`, comes from -/
-inductive Origin (D : Path → G.Item → Prop) (reg : Registry) (p : Path) (i : ItemDef) (r : Resolved) : Prop
+/-- where a resolved entry `(p, i)` of registry `reg`, with resolved part `r`, comes from.
+    `D` says which definitions are declared, `Q` is what is known of the state an item was built in
+    (besides the invariants of the run). -/
+inductive Origin (D : Path → G.Item → Prop) (Q : State → Prop) (reg : Registry) (p : Path) (i : ItemDef)
+    (r : Resolved) : Prop
   /-- `SemanticState::new` -/
   | predef (nm : String × Nat) (hm : nm ∈ predefinedTypes) (hp : p = [nm.1]) (hi : i = C02.predefItem nm)
   /-- an `extern type` of a module -/
@@ -56,27 +68,36 @@ inductive Origin (D : Path → G.Item → Prop) (reg : Registry) (p : Path) (i :
   /-- an accepted `type_definition::build` of the declared definition `item` registered under `p`, in state `s`
       (post-state `s1`, which `reg` extends) -/
   | type (s s1 : State) (item : G.Item) (d : G.TypeDef)
-      (hok : C12.StateOkB s) (hinv : Exec.Inv s) (hD : D p item)
+      (hok : C12.StateOkB s) (hinv : Exec.Inv s) (hQ : Q s) (hD : D p item)
       (hget : s.reg.get p = some (declItem p item)) (hd : item.inner = .type d)
       (hb : buildType s p item.vis d = (s1, .ok r)) (he : C02.Ext s1.reg reg) (hi : i = builtItem p item r)
   /-- an accepted `enum_definition::build` of the declared definition `item` registered under `p`, in state `s`
       (which `reg` extends) -/
   | enum (s : State) (item : G.Item) (d : G.EnumDef)
-      (hok : C12.StateOkB s) (hinv : Exec.Inv s) (hD : D p item)
+      (hok : C12.StateOkB s) (hinv : Exec.Inv s) (hQ : Q s) (hD : D p item)
       (hget : s.reg.get p = some (declItem p item)) (hd : item.inner = .enum d)
       (hb : buildEnum s p d = .ok r) (he : C02.Ext s.reg reg) (hi : i = builtItem p item r)
 
 /-- the invariant on one registry entry -/
-def Good (D : Path → G.Item → Prop) (reg : Registry) (p : Path) (i : ItemDef) : Prop :=
+def Good (D : Path → G.Item → Prop) (Q : State → Prop) (reg : Registry) (p : Path) (i : ItemDef) : Prop :=
   (∀ item, i.state = .unres item → D p item ∧ i = declItem p item) ∧
-  (∀ r, i.state = .res r → Origin D reg p i r)
+  (∀ r, i.state = .res r → Origin D Q reg p i r)
 
 /-- **provenance, registry-wide** -/
-def AllGood (D : Path → G.Item → Prop) (reg : Registry) : Prop := ∀ p i, reg.get p = some i → Good D reg p i
+def AllGood (D : Path → G.Item → Prop) (Q : State → Prop) (reg : Registry) : Prop :=
+  ∀ p i, reg.get p = some i → Good D Q reg p i
 
 /-- an extern value written in a module of the case -/
 def DeclaredX (c : Case) (path : Path) (gx : G.XVal) : Prop :=
   ∃ file m, ModEnt.ast path file m ∈ c.modules ∧ gx ∈ m.xvals
+
+/-- a function block (`impl`) written in a module of the case -/
+def DeclaredImpl (c : Case) (path : Path) (blk : G.Impl) : Prop :=
+  ∃ file m, ModEnt.ast path file m ∈ c.modules ∧ blk ∈ m.impls
+
+/-- a function written in a function block for the type registered under `p`, in a module of the case -/
+def DeclaredFn (c : Case) (p : Path) (gf : G.Func) : Prop :=
+  ∃ path blk, DeclaredImpl c path blk ∧ p = path ++ [blk.name] ∧ gf ∈ blk.fns
 
 /-- the stored extern value `x` is the conversion of the written extern value `gx`: the declared (non-negative)
     address, the same name, visibility and written type -/
@@ -84,42 +105,229 @@ def XvOf (gx : G.XVal) (x : XValue) : Prop :=
   ∃ a : Int, C15.declInt "address" gx.attrs = some a ∧ 0 ≤ a ∧ x.addr = a.toNat ∧ x.name = gx.name ∧
     x.vis = gx.vis ∧ x.gty = gx.ty
 
-/-- every extern value of every stored module is the conversion of one written in the case, under the module's path -/
-def XvGood (DX : Path → G.XVal → Prop) (s : State) : Prop :=
-  ∀ e ∈ s.modules, ∀ x ∈ e.2.xvals, ∃ gx, DX e.1 gx ∧ XvOf gx x
+/-- what a stored module has from the case: every extern value is the conversion of one written in the case under the
+    module's path, every stored function block is one written in the case under the module's path, keyed by the path of
+    the type it names -/
+def ModOf (c : Case) (path : Path) (md : Mod) : Prop :=
+  (∀ x ∈ md.xvals, ∃ gx, DeclaredX c path gx ∧ XvOf gx x) ∧
+  (∀ ib ∈ md.impls, ∃ blk, DeclaredImpl c path blk ∧ ib = (path ++ [blk.name], blk))
+
+/-- an invariant on the stored modules -/
+def ModsGood (P : Path → Mod → Prop) (s : State) : Prop := ∀ e ∈ s.modules, P e.1 e.2
+
+/-- `P` does not look at the definition paths of a module (the only thing `add_item` changes) -/
+def DefPathsBlind (P : Path → Mod → Prop) : Prop := ∀ path m dp, P path m → P path { m with defPaths := dp }
 
 /-- the items of an abstract file: what follows the inner-doc node -/
 def fileItems : Sexp → List Sexp
   | .list [.sym "file", _, .list (.sym "rs" :: _ :: items)] => items
   | _ => []
 
+/-- the five ways `vftable::build` succeeds for a type at `owner` whose first `#[base]` field is `fb` and whose
+    vftable block (if any) converted to `vfns`: the type's table `v` and the pointer region `ptr` handed to the layout
+    core.  `reg` is the registry in which the base's table is read. -/
+def VftCases (reg : Registry) (owner : Path) (fb : Option Region) (vfns : Option (List SFunc))
+    (v : Option Vft) (ptr : Option Region) : Prop :=
+  -- no block, no base table: no table
+  (vfns = none ∧ ptr = none ∧ v = none ∧ baseVftable reg fb = .ok none) ∨
+  -- no block, the first base has a table: inherited unchanged, no pointer of its own
+  (vfns = none ∧ ptr = none ∧ ∃ bn bv, baseVftable reg fb = .ok (some (bn, bv)) ∧
+    v = some { fns := bv.fns, baseField := some bn, ty := bv.ty }) ∨
+  -- a block on a type without a parent path: ignored
+  (∃ fns, vfns = some fns ∧ vftablePath owner = none ∧ ptr = none ∧ v = none) ∨
+  -- a block, no base table: own table, own pointer
+  (∃ fns vpath, vfns = some fns ∧ vftablePath owner = some vpath ∧ baseVftable reg fb = .ok none ∧
+    ptr = some (C06.ownPointer vpath) ∧ v = some { fns := fns, baseField := none, ty := .cptr (.raw vpath) }) ∨
+  -- a block and a base table: the base's slots are a prefix, the pointer is the base's
+  (∃ fns vpath bn bv, vfns = some fns ∧ vftablePath owner = some vpath ∧
+    baseVftable reg fb = .ok (some (bn, bv)) ∧ bv.fns <+: fns ∧ (bv.fns.map C06.slotSig) <+: (fns.map C06.slotSig) ∧
+    ptr = none ∧ v = some { fns := fns, baseField := some bn, ty := .cptr (.raw vpath) })
+
+/-- what a field statement contributes to the pending fields: its visibility, its name (none for `_`), its docs, its
+    resolved type, `#[base]` and `#[address]` -/
+def FieldOf (reg : Registry) (scope : List Path) (st : G.Stmt) (q : Option Nat × Region) : Prop :=
+  ∃ (vis : Vis) (name : String) (ty : G.Ty) (fa : FieldAttrs) (t : DTy),
+    st.field = .field vis name ty ∧ G.docOf st.attrs = some q.2.doc ∧ Res.foldlM fieldAttrStep {} st.attrs = .ok fa ∧
+    reg.resolveTy scope ty = .ok t ∧
+    q = (fa.address, { vis := vis, name := if name != "_" then some name else none, doc := q.2.doc, ty := .data t,
+                       isBase := fa.isBase })
+
 /-! ## Lemma part -/
 
-/-! ### the invariant, step by step -/
+/-! ### an invariant on the stored modules, through a whole run -/
 
-theorem Origin.mono {D : Path → G.Item → Prop} {r r' : Registry} (he : C02.Ext r r') {p : Path} {i : ItemDef}
-    {res : Resolved} (h : Origin D r p i res) : Origin D r' p i res := by
+theorem mapM'_mem {α β} (f : α → Res β) (l : List α) (l' : List β) (h : Res.mapM' f l = .ok l') :
+    ∀ b ∈ l', ∃ a ∈ l, f a = .ok b := by
+  obtain ⟨hl, hp⟩ := C15.mapM'_ok f l l' h
+  intro b hb
+  obtain ⟨k, hk, rfl⟩ := List.getElem_of_mem hb
+  exact ⟨l[k]'(by omega), List.getElem_mem _, hp k (by omega) hk⟩
+
+theorem addItem_mods {P : Path → Mod → Prop} (hP : DefPathsBlind P) (s s' : State) (i : ItemDef)
+    (hs : ModsGood P s) (h : s.addItem i = .ok s') : ModsGood P s' := by
+  obtain ⟨parent, m, hm, rfl⟩ := C14.addItem_inv s s' i h
+  intro e he
+  simp only [List.mem_map] at he
+  obtain ⟨e0, he0, rfl⟩ := he
+  by_cases hk : (e0.1 == parent) = true
+  · rw [if_pos hk]
+    have hmem := C14.mem_of_lookup s.modules parent m hm
+    have := hP _ _ (if m.defPaths.contains i.path then m.defPaths else i.path :: m.defPaths) (hs (parent, m) hmem)
+    have hp : e0.1 = parent := by simpa using hk
+    simpa [hp] using this
+  · rw [if_neg hk]
+    exact hs e0 he0
+
+theorem new_mods {P : Path → Mod → Prop} (hP : DefPathsBlind P) (h0 : P [] {}) (ps : Nat) : ModsGood P (State.new ps) := by
+  rw [C02.new_eq]
+  have : ∀ (l : List (String × Nat)) (s : State), ModsGood P s → ModsGood P (l.foldl C02.newStep s) := by
+    intro l
+    induction l with
+    | nil => intro s hs; exact hs
+    | cons x l ih =>
+      intro s hs
+      simp only [List.foldl_cons]
+      apply ih
+      unfold C02.newStep
+      split
+      · next s' ha => exact addItem_mods hP s s' _ hs ha
+      · exact hs
+  apply this
+  intro e he
+  simp only [List.mem_singleton] at he
+  subst he
+  exact h0
+
+theorem reach2_mods {P : Path → Mod → Prop} (hP : DefPathsBlind P) {s s1 : State} {owner : Path}
+    (hr : C02.Reach2 s s1 owner) (hs : ModsGood P s) : ModsGood P s1 := by
+  rcases hr with rfl | ⟨vis, fns, item, _, _, ha⟩
+  · exact hs
+  · exact addItem_mods hP s s1 item hs ha
+
+theorem ModsGood.of_modules {P : Path → Mod → Prop} {s s' : State} (h : ModsGood P s) (e : s'.modules = s.modules) :
+    ModsGood P s' := by
+  intro x hx
+  rw [e] at hx
+  exact h x hx
+
+theorem attemptItem_mods {P : Path → Mod → Prop} (hP : DefPathsBlind P) (s : State) (p : Path) (hs : ModsGood P s) :
+    ModsGood P (attemptItem s p).1 := by
+  unfold attemptItem
+  split
+  · exact hs
+  · split
+    · exact hs
+    · next d hd =>
+      split
+      · next td htd =>
+        have sh := reach2_mods hP (C02.buildType_reach2 s p d.vis td) hs
+        split
+        · next s1 r hb => rw [hb] at sh; exact sh.of_modules rfl
+        · next s1 hb => rw [hb] at sh; exact sh
+        · next s1 m hb => rw [hb] at sh; exact sh
+        · next s1 m hb => rw [hb] at sh; exact sh
+      · split
+        · exact hs.of_modules rfl
+        · exact hs
+        · exact hs
+        · exact hs
+
+theorem runRound_mods {P : Path → Mod → Prop} (hP : DefPathsBlind P) (l : List Path) (s : State) (hs : ModsGood P s) :
+    ModsGood P (runRound s l).1 := by
+  induction l generalizing s with
+  | nil => exact hs
+  | cons p ps ih =>
+    have h2 := attemptItem_mods hP s p hs
+    unfold runRound
+    split
+    · next s1 ha => rw [ha] at h2; exact ih s1 h2
+    · next s1 e _ ha => rw [ha] at h2; exact h2
+
+theorem resolveLoop_mods {P : Path → Mod → Prop} (hP : DefPathsBlind P) (prio : List Path) (fuel : Nat) (s : State)
+    (hs : ModsGood P s) (s' : State) (hl : resolveLoop prio fuel s = .ok s') : ModsGood P s' := by
+  induction fuel generalizing s with
+  | zero => simp [resolveLoop] at hl
+  | succ n ih =>
+    unfold resolveLoop at hl
+    simp only [] at hl
+    split at hl
+    · cases hl; exact hs
+    · have hr2 := runRound_mods hP (s.reg.unresolved prio) s hs
+      split at hl
+      · next s1 h1 =>
+        rw [h1] at hr2
+        split at hl
+        · cases hl
+        · exact ih s1 hr2 hl
+      · cases hl
+      · cases hl
+      · cases hl
+
+theorem addModule_mods {P : Path → Mod → Prop} (hP : DefPathsBlind P) (s s' : State) (m : G.Module) (path : Path)
+    (hs : ModsGood P s)
+    (hnew : ∀ xvals doc, Res.mapM' C14.xvalStep m.xvals = .ok xvals → P path (C14.newMod m path xvals doc))
+    (h : s.addModule m path = .ok s') : ModsGood P s' := by
+  obtain ⟨xvals, doc, s2, hx, h1, h2⟩ := C14.addModule_inv s s' m path h
+  have k0 : ModsGood P (s.putModule path (C14.newMod m path xvals doc)) := by
+    intro e he
+    simp only [State.putModule, List.mem_cons, List.mem_filter] at he
+    rcases he with rfl | ⟨he, _⟩
+    · exact hnew xvals doc hx
+    · exact hs e he
+  have k2 : ModsGood P s2 :=
+    (C12.PO.foldlM_inv (S := fun _ => True) (ModsGood P) (C14.defStep path) m.defs _ k0
+      (fun b d _ hb => ⟨fun _ _ => trivial, fun b' hb' => by
+        obtain ⟨_, i, _, ha⟩ := C14.defStep_spec path b d b' hb'
+        exact addItem_mods hP b b' i hb ha⟩)).2 s2 h1
+  exact (C12.PO.foldlM_inv (S := fun _ => True) (ModsGood P) (C14.xtypeStep path) m.xtypes _ k2
+      (fun b xt _ hb => ⟨fun _ _ => trivial, fun b' hb' => by
+        obtain ⟨_, i, _, ha⟩ := C14.xtypeStep_spec path b xt b' hb'
+        exact addItem_mods hP b b' i hb ha⟩)).2 s' h2
+
+theorem modOf_blind (c : Case) : DefPathsBlind (ModOf c) := fun _ _ _ h => h
+
+theorem modOf_root (c : Case) : ModOf c [] {} :=
+  ⟨fun x hx => (by cases hx), fun ib hib => (by cases hib)⟩
+
+theorem modOf_new (c : Case) (path : Path) (file : String) (m : G.Module) (hm : ModEnt.ast path file m ∈ c.modules)
+    (xvals : List XValue) (doc : Option String) (hx : Res.mapM' C14.xvalStep m.xvals = .ok xvals) :
+    ModOf c path (C14.newMod m path xvals doc) := by
+  refine ⟨?_, ?_⟩
+  · intro x hxm
+    obtain ⟨gx, hgx, hstep⟩ := mapM'_mem _ _ _ hx x hxm
+    exact ⟨gx, ⟨file, m, hm, hgx⟩, C15.xvalStep_ok gx x hstep⟩
+  · intro ib hib
+    simp only [C14.newMod, List.mem_map] at hib
+    obtain ⟨blk, hblk, rfl⟩ := hib
+    exact ⟨blk, ⟨file, m, hm, hblk⟩, rfl⟩
+
+/-! ### the provenance invariant, step by step -/
+
+theorem Origin.mono {D : Path → G.Item → Prop} {Q : State → Prop} {r r' : Registry} (he : C02.Ext r r') {p : Path}
+    {i : ItemDef} {res : Resolved} (h : Origin D Q r p i res) : Origin D Q r' p i res := by
   cases h with
   | predef nm hm hp hi => exact .predef nm hm hp hi
   | extern size align hi => exact .extern size align hi
   | vftable reg0 owner vis fns hi hp => exact .vftable reg0 owner vis fns hi hp
-  | type s s1 item d hok hinv hD hget hd hb he' hi => exact .type s s1 item d hok hinv hD hget hd hb (he'.trans he) hi
-  | enum s item d hok hinv hD hget hd hb he' hi => exact .enum s item d hok hinv hD hget hd hb (he'.trans he) hi
+  | type s s1 item d hok hinv hQ hD hget hd hb he' hi =>
+    exact .type s s1 item d hok hinv hQ hD hget hd hb (he'.trans he) hi
+  | enum s item d hok hinv hQ hD hget hd hb he' hi => exact .enum s item d hok hinv hQ hD hget hd hb (he'.trans he) hi
 
-theorem Good.mono {D : Path → G.Item → Prop} {r r' : Registry} (he : C02.Ext r r') {p : Path} {i : ItemDef}
-    (h : Good D r p i) : Good D r' p i :=
+theorem Good.mono {D : Path → G.Item → Prop} {Q : State → Prop} {r r' : Registry} (he : C02.Ext r r') {p : Path}
+    {i : ItemDef} (h : Good D Q r p i) : Good D Q r' p i :=
   ⟨h.1, fun res hr => (h.2 res hr).mono he⟩
 
-theorem AllGood.step {D : Path → G.Item → Prop} {r r' : Registry} (h : AllGood D r) (he : C02.Ext r r')
-    (hnew : ∀ p i, r'.get p = some i → r.get p = some i ∨ Good D r' p i) : AllGood D r' := by
+theorem AllGood.step {D : Path → G.Item → Prop} {Q : State → Prop} {r r' : Registry} (h : AllGood D Q r)
+    (he : C02.Ext r r') (hnew : ∀ p i, r'.get p = some i → r.get p = some i ∨ Good D Q r' p i) : AllGood D Q r' := by
   intro p i hg
   rcases hnew p i hg with ho | hn
   · exact (h p i ho).mono he
   · exact hn
 
-theorem AllGood.addItem {D : Path → G.Item → Prop} (s s' : State) (i : ItemDef) (hs : AllGood D s.reg)
-    (h : s.addItem i = .ok s') (hfree : s.reg.get i.path = none ∨ s.reg.get i.path = some i)
-    (hi : Good D s'.reg i.path i) : AllGood D s'.reg := by
+theorem AllGood.addItem {D : Path → G.Item → Prop} {Q : State → Prop} (s s' : State) (i : ItemDef)
+    (hs : AllGood D Q s.reg) (h : s.addItem i = .ok s')
+    (hfree : s.reg.get i.path = none ∨ s.reg.get i.path = some i)
+    (hi : Good D Q s'.reg i.path i) : AllGood D Q s'.reg := by
   obtain ⟨he, hn⟩ := C02.addItem_ext s s' i h hfree
   refine hs.step he ?_
   intro p j hj
@@ -127,13 +335,14 @@ theorem AllGood.addItem {D : Path → G.Item → Prop} (s s' : State) (i : ItemD
   · exact Or.inl ho
   · exact Or.inr hi
 
-theorem new_good (D : Path → G.Item → Prop) (ps : Nat) : AllGood D (State.new ps).reg := by
+theorem new_good (D : Path → G.Item → Prop) (Q : State → Prop) (ps : Nat) : AllGood D Q (State.new ps).reg := by
   intro p i hg
   obtain ⟨nm, hnm, rfl, rfl⟩ := C02.new_get_inv ps p i hg
   exact ⟨fun item hst => (by cases hst), fun r _ => .predef nm hnm rfl rfl⟩
 
-theorem defStep_good {D : Path → G.Item → Prop} (path : Path) (s s' : State) (d : G.Item) (hs : AllGood D s.reg)
-    (hD : D (path ++ [d.name]) d) (h : C14.defStep path s d = .ok s') : AllGood D s'.reg := by
+theorem defStep_good {D : Path → G.Item → Prop} {Q : State → Prop} (path : Path) (s s' : State) (d : G.Item)
+    (hs : AllGood D Q s.reg) (hD : D (path ++ [d.name]) d) (h : C14.defStep path s d = .ok s') :
+    AllGood D Q s'.reg := by
   unfold C14.defStep at h
   split at h
   · cases h
@@ -145,8 +354,9 @@ theorem defStep_good {D : Path → G.Item → Prop} (path : Path) (s s' : State)
       exact ⟨hD, rfl⟩
     · intro r hst; cases hst
 
-theorem xtypeStep_good {D : Path → G.Item → Prop} (path : Path) (s s' : State) (xt : String × List G.Attr)
-    (hs : AllGood D s.reg) (h : C14.xtypeStep path s xt = .ok s') : AllGood D s'.reg := by
+theorem xtypeStep_good {D : Path → G.Item → Prop} {Q : State → Prop} (path : Path) (s s' : State)
+    (xt : String × List G.Attr) (hs : AllGood D Q s.reg) (h : C14.xtypeStep path s xt = .ok s') :
+    AllGood D Q s'.reg := by
   unfold C14.xtypeStep at h
   split at h
   · split at h
@@ -164,18 +374,19 @@ theorem xtypeStep_good {D : Path → G.Item → Prop} (path : Path) (s s' : Stat
               exact .extern _ _ rfl
   · exact (C14.cast_ne_ok _ _ h).elim
 
-theorem addModule_good {D : Path → G.Item → Prop} (s s' : State) (m : G.Module) (path : Path) (hs : AllGood D s.reg)
-    (hD : ∀ d ∈ m.defs, D (path ++ [d.name]) d) (h : s.addModule m path = .ok s') : AllGood D s'.reg := by
+theorem addModule_good {D : Path → G.Item → Prop} {Q : State → Prop} (s s' : State) (m : G.Module) (path : Path)
+    (hs : AllGood D Q s.reg) (hD : ∀ d ∈ m.defs, D (path ++ [d.name]) d) (h : s.addModule m path = .ok s') :
+    AllGood D Q s'.reg := by
   obtain ⟨xvals, doc, s2, _, h1, h2⟩ := C14.addModule_inv s s' m path h
-  have k0 : AllGood D (s.putModule path (C14.newMod m path xvals doc)).reg := hs
-  have k2 : AllGood D s2.reg :=
-    (C12.PO.foldlM_inv (S := fun _ => True) (fun s => AllGood D s.reg) (C14.defStep path) m.defs _ k0
+  have k0 : AllGood D Q (s.putModule path (C14.newMod m path xvals doc)).reg := hs
+  have k2 : AllGood D Q s2.reg :=
+    (C12.PO.foldlM_inv (S := fun _ => True) (fun s => AllGood D Q s.reg) (C14.defStep path) m.defs _ k0
       (fun b d hd hb => ⟨fun _ _ => trivial, fun b' hb' => defStep_good path b b' d hb (hD d hd) hb'⟩)).2 s2 h1
-  exact (C12.PO.foldlM_inv (S := fun _ => True) (fun s => AllGood D s.reg) (C14.xtypeStep path) m.xtypes _ k2
+  exact (C12.PO.foldlM_inv (S := fun _ => True) (fun s => AllGood D Q s.reg) (C14.xtypeStep path) m.xtypes _ k2
       (fun b xt _ hb => ⟨fun _ _ => trivial, fun b' hb' => xtypeStep_good path b b' xt hb hb'⟩)).2 s' h2
 
-theorem reach2_good {D : Path → G.Item → Prop} {s s1 : State} {owner : Path} (hr : C02.Reach2 s s1 owner)
-    (hs : AllGood D s.reg) : AllGood D s1.reg := by
+theorem reach2_good {D : Path → G.Item → Prop} {Q : State → Prop} {s s1 : State} {owner : Path}
+    (hr : C02.Reach2 s s1 owner) (hs : AllGood D Q s.reg) : AllGood D Q s1.reg := by
   rcases hr with rfl | ⟨vis, fns, item, hi, hfree, ha⟩
   · exact hs
   · refine AllGood.addItem s s1 item hs ha hfree ⟨?_, ?_⟩
@@ -185,10 +396,10 @@ theorem reach2_good {D : Path → G.Item → Prop} {s s1 : State} {owner : Path}
     · intro r _
       exact .vftable s.reg owner vis fns hi rfl
 
-theorem setState_good {D : Path → G.Item → Prop} (reg : Registry) (p : Path) (res : Resolved) (i : ItemDef) (d : G.Item)
-    (hs : AllGood D reg) (hi : reg.get p = some i) (hu : i.state = .unres d)
-    (hp : Origin D (reg.setState p (.res res)) p { i with state := .res res } res) :
-    AllGood D (reg.setState p (.res res)) := by
+theorem setState_good {D : Path → G.Item → Prop} {Q : State → Prop} (reg : Registry) (p : Path) (res : Resolved)
+    (i : ItemDef) (d : G.Item) (hs : AllGood D Q reg) (hi : reg.get p = some i) (hu : i.state = .unres d)
+    (hp : Origin D Q (reg.setState p (.res res)) p { i with state := .res res } res) :
+    AllGood D Q (reg.setState p (.res res)) := by
   refine hs.step (C02.setState_ext reg p res i d hi hu) ?_
   intro q j hq
   simp only [C12.get_setState] at hq
@@ -206,8 +417,8 @@ theorem setState_good {D : Path → G.Item → Prop} (reg : Registry) (p : Path)
   · rw [if_neg e] at hq
     exact Or.inl hq
 
-theorem attemptItem_good {D : Path → G.Item → Prop} (s : State) (p : Path) (hok : C12.StateOkB s) (hinv : Exec.Inv s)
-    (hs : AllGood D s.reg) : AllGood D (attemptItem s p).1.reg := by
+theorem attemptItem_good {D : Path → G.Item → Prop} {Q : State → Prop} (s : State) (p : Path) (hok : C12.StateOkB s)
+    (hinv : Exec.Inv s) (hQ : Q s) (hs : AllGood D Q s.reg) : AllGood D Q (attemptItem s p).1.reg := by
   unfold attemptItem
   split
   · exact hs
@@ -219,14 +430,14 @@ theorem attemptItem_good {D : Path → G.Item → Prop} (s : State) (p : Path) (
       split
       · next td htd =>
         have hreach := C02.buildType_reach2 s p d.vis td
-        have sh := reach2_good (D := D) hreach hs
+        have sh := reach2_good (D := D) (Q := Q) hreach hs
         split
         · next s1 r hb =>
           rw [hb] at sh hreach
           simp only [] at hreach
           have hi := Exec.reach2_keeps hreach p item hget
           refine setState_good s1.reg p r item d sh hi hd ?_
-          refine .type s s1 d td hok hinv hD (by rw [hget, hitem]) htd hb
+          refine .type s s1 d td hok hinv hQ hD (by rw [hget, hitem]) htd hb
             (C02.setState_ext s1.reg p r item d hi hd) ?_
           rw [hitem]; rfl
         · next s1 hb => rw [hb] at sh; exact sh
@@ -236,35 +447,39 @@ theorem attemptItem_good {D : Path → G.Item → Prop} (s : State) (p : Path) (
         split
         · next r hb =>
           refine setState_good s.reg p r item d hs hget hd ?_
-          refine .enum s d ed hok hinv hD (by rw [hget, hitem]) hed hb
+          refine .enum s d ed hok hinv hQ hD (by rw [hget, hitem]) hed hb
             (C02.setState_ext s.reg p r item d hget hd) ?_
           rw [hitem]; rfl
         · exact hs
         · exact hs
         · exact hs
 
+/-- the joint invariant of a run: the two invariants the existing whole-run theorems carry, the invariant `P` on the
+    stored modules, and provenance (every built item was built in a state whose modules satisfy `P`) -/
+def J (D : Path → G.Item → Prop) (P : Path → Mod → Prop) (s : State) : Prop :=
+  C12.StateOkB s ∧ Exec.Inv s ∧ ModsGood P s ∧ AllGood D (ModsGood P) s.reg
 
-/-- the joint invariant of a run: the two invariants the existing whole-run theorems carry, and provenance -/
-def J (D : Path → G.Item → Prop) (s : State) : Prop := C12.StateOkB s ∧ Exec.Inv s ∧ AllGood D s.reg
-
-theorem attemptItem_J {D : Path → G.Item → Prop} (s : State) (p : Path) (h : J D s) : J D (attemptItem s p).1 :=
+theorem attemptItem_J {D : Path → G.Item → Prop} {P : Path → Mod → Prop} (hP : DefPathsBlind P) (s : State) (p : Path)
+    (h : J D P s) : J D P (attemptItem s p).1 :=
   ⟨C12.attemptItem_ok s p h.1,
    ⟨C02.attemptItem_sound s p (C02.ps_pos_of_ok h.1.ok) h.2.1.1, Exec.attemptItem_built s p h.2.1.1.prims h.2.1.2.1,
     C02.ps_pos_of_ok (C12.attemptItem_ok s p h.1).ok⟩,
-   attemptItem_good s p h.1 h.2.1 h.2.2⟩
+   attemptItem_mods hP s p h.2.2.1,
+   attemptItem_good s p h.1 h.2.1 h.2.2.1 h.2.2.2⟩
 
-theorem runRound_J {D : Path → G.Item → Prop} (l : List Path) (s : State) (h : J D s) : J D (runRound s l).1 := by
+theorem runRound_J {D : Path → G.Item → Prop} {P : Path → Mod → Prop} (hP : DefPathsBlind P) (l : List Path) (s : State)
+    (h : J D P s) : J D P (runRound s l).1 := by
   induction l generalizing s with
   | nil => exact h
   | cons p ps ih =>
-    have h2 := attemptItem_J s p h
+    have h2 := attemptItem_J hP s p h
     unfold runRound
     split
     · next s1 ha => rw [ha] at h2; exact ih s1 h2
     · next s1 e _ ha => rw [ha] at h2; exact h2
 
-theorem resolveLoop_J {D : Path → G.Item → Prop} (prio : List Path) (fuel : Nat) (s : State) (h : J D s)
-    (s' : State) (hl : resolveLoop prio fuel s = .ok s') : J D s' := by
+theorem resolveLoop_J {D : Path → G.Item → Prop} {P : Path → Mod → Prop} (hP : DefPathsBlind P) (prio : List Path)
+    (fuel : Nat) (s : State) (h : J D P s) (s' : State) (hl : resolveLoop prio fuel s = .ok s') : J D P s' := by
   induction fuel generalizing s with
   | zero => simp [resolveLoop] at hl
   | succ n ih =>
@@ -272,7 +487,7 @@ theorem resolveLoop_J {D : Path → G.Item → Prop} (prio : List Path) (fuel : 
     simp only [] at hl
     split at hl
     · cases hl; exact h
-    · have hr2 := runRound_J (s.reg.unresolved prio) s h
+    · have hr2 := runRound_J hP (s.reg.unresolved prio) s h
       split at hl
       · next s1 h1 =>
         rw [h1] at hr2
@@ -284,11 +499,11 @@ theorem resolveLoop_J {D : Path → G.Item → Prop} (prio : List Path) (fuel : 
       · cases hl
 
 theorem initialState_J (c : Case) (hps : c.ps = 4 ∨ c.ps = 8) (hb : C12.CaseBounded c) (s : State)
-    (h : c.initialState = .ok s) : J (Declared c) s := by
+    (h : c.initialState = .ok s) : J (Declared c) (ModOf c) s := by
   unfold Case.initialState at h
-  refine (C12.PO.foldlM_inv (S := fun _ => True) (J (Declared c)) _ c.modules _
+  refine (C12.PO.foldlM_inv (S := fun _ => True) (J (Declared c) (ModOf c)) _ c.modules _
     ⟨C12.new_okB c.ps hps, ⟨C02.new_sound_lem c.ps, Exec.new_built c.ps, C02.ps_pos_of_ok (C12.new_okB c.ps hps).ok⟩,
-     new_good _ c.ps⟩ ?_).2 s h
+     new_mods (modOf_blind c) (modOf_root c) c.ps, new_good _ _ c.ps⟩ ?_).2 s h
   intro b me hme hbI
   cases me with
   | ast path file m =>
@@ -296,171 +511,46 @@ theorem initialState_J (c : Case) (hps : c.ps = 4 ∨ c.ps = 8) (hb : C12.CaseBo
     have hok := C12.addModule_okB b b' m path hbI.1 (hb path file m hme) hb'
     exact ⟨hok, ⟨C02.addModule_sound_lem b b' m path hbI.2.1.1 hb', Exec.addModule_built b b' m path hbI.2.1.2.1 hb',
       C02.ps_pos_of_ok hok.ok⟩,
-      addModule_good b b' m path hbI.2.2 (fun d hd => ⟨path, file, m, hme, hd, rfl⟩) hb'⟩
+      addModule_mods (modOf_blind c) b b' m path hbI.2.2.1 (fun xvals doc hx => modOf_new c path file m hme xvals doc hx) hb',
+      addModule_good b b' m path hbI.2.2.2 (fun d hd => ⟨path, file, m, hme, hd, rfl⟩) hb'⟩
   | text f t => exact ⟨fun _ _ => trivial, fun _ h => by cases h⟩
 
-/-- **provenance for every accepted case**: in the final registry every unresolved entry is a declared definition, and
-    every resolved entry has an `Origin` -/
-theorem case_good (c : Case) (hps : c.ps = 4 ∨ c.ps = 8) (hb : C12.CaseBounded c) (s : State)
-    (h : c.run = .ok s) : AllGood (Declared c) s.reg := by
+/-- the state in which the resolution loop of an accepted case ended (before the extern values are typed) -/
+theorem case_J (c : Case) (hps : c.ps = 4 ∨ c.ps = 8) (hb : C12.CaseBounded c) (s : State) (h : c.run = .ok s) :
+    ∃ s1 ms, J (Declared c) (ModOf c) s1 ∧
+      Res.mapM' (fun (e : Path × Mod) =>
+        match resolveXVals s1.reg e.2 with
+        | .ok m => Res.ok (e.1, m)
+        | x => x.cast) s1.modules = .ok ms ∧ s = { s1 with modules := ms } := by
   unfold Case.run at h
   split at h
   · next s0 hs0 =>
     have h0 := initialState_J c hps hb s0 hs0
-    obtain ⟨s1, hl, ms, _, rfl⟩ := C09.build_ok_inv s0 c.prio s h
-    exact (resolveLoop_J c.prio _ s0 h0 s1 hl).2.2
+    obtain ⟨s1, hl, ms, hms, rfl⟩ := C09.build_ok_inv s0 c.prio s h
+    exact ⟨s1, ms, resolveLoop_J (modOf_blind c) c.prio _ s0 h0 s1 hl, hms, rfl⟩
   · cases h
   · cases h
   · cases h
+
+/-- **provenance for every accepted case**: in the final registry every unresolved entry is a declared definition, and
+    every resolved entry has an `Origin` -/
+theorem case_good (c : Case) (hps : c.ps = 4 ∨ c.ps = 8) (hb : C12.CaseBounded c) (s : State)
+    (h : c.run = .ok s) : AllGood (Declared c) (ModsGood (ModOf c)) s.reg := by
+  obtain ⟨s1, ms, hJ, _, rfl⟩ := case_J c hps hb s h
+  exact hJ.2.2.2
 
 /-! ### extern values -/
 
-theorem mapM'_mem {α β} (f : α → Res β) (l : List α) (l' : List β) (h : Res.mapM' f l = .ok l') :
-    ∀ b ∈ l', ∃ a ∈ l, f a = .ok b := by
-  obtain ⟨hl, hp⟩ := C15.mapM'_ok f l l' h
-  intro b hb
-  obtain ⟨k, hk, rfl⟩ := List.getElem_of_mem hb
-  exact ⟨l[k]'(by omega), List.getElem_mem _, hp k (by omega) hk⟩
-
-theorem addItem_xv {DX : Path → G.XVal → Prop} (s s' : State) (i : ItemDef) (hs : XvGood DX s)
-    (h : s.addItem i = .ok s') : XvGood DX s' := by
-  obtain ⟨parent, m, hm, rfl⟩ := C14.addItem_inv s s' i h
-  intro e he x hx
-  simp only [List.mem_map] at he
-  obtain ⟨e0, he0, rfl⟩ := he
-  by_cases hk : (e0.1 == parent) = true
-  · rw [if_pos hk] at hx ⊢
-    have hmem := C14.mem_of_lookup s.modules parent m hm
-    have := hs (parent, m) hmem x hx
-    have hp : e0.1 = parent := by simpa using hk
-    simpa [hp] using this
-  · rw [if_neg hk] at hx ⊢
-    exact hs e0 he0 x hx
-
-theorem new_xv (DX : Path → G.XVal → Prop) (ps : Nat) : XvGood DX (State.new ps) := by
-  rw [C02.new_eq]
-  have : ∀ (l : List (String × Nat)) (s : State), XvGood DX s → XvGood DX (l.foldl C02.newStep s) := by
-    intro l
-    induction l with
-    | nil => intro s hs; exact hs
-    | cons x l ih =>
-      intro s hs
-      simp only [List.foldl_cons]
-      apply ih
-      unfold C02.newStep
-      split
-      · next s' ha => exact addItem_xv s s' _ hs ha
-      · exact hs
-  apply this
-  intro e he x hx
-  simp only [List.mem_singleton] at he
-  subst he
-  cases hx
-
-theorem reach2_xv {DX : Path → G.XVal → Prop} {s s1 : State} {owner : Path} (hr : C02.Reach2 s s1 owner)
-    (hs : XvGood DX s) : XvGood DX s1 := by
-  rcases hr with rfl | ⟨vis, fns, item, _, _, ha⟩
-  · exact hs
-  · exact addItem_xv s s1 item hs ha
-
-theorem XvGood.of_modules {DX : Path → G.XVal → Prop} {s s' : State} (h : XvGood DX s) (e : s'.modules = s.modules) :
-    XvGood DX s' := by
-  intro x hx
-  rw [e] at hx
-  exact h x hx
-
-theorem attemptItem_xv {DX : Path → G.XVal → Prop} (s : State) (p : Path) (hs : XvGood DX s) :
-    XvGood DX (attemptItem s p).1 := by
-  unfold attemptItem
-  split
-  · exact hs
-  · split
-    · exact hs
-    · next d hd =>
-      split
-      · next td htd =>
-        have sh := reach2_xv (DX := DX) (C02.buildType_reach2 s p d.vis td) hs
-        split
-        · next s1 r hb => rw [hb] at sh; exact sh.of_modules rfl
-        · next s1 hb => rw [hb] at sh; exact sh
-        · next s1 m hb => rw [hb] at sh; exact sh
-        · next s1 m hb => rw [hb] at sh; exact sh
-      · split
-        · exact hs.of_modules rfl
-        · exact hs
-        · exact hs
-        · exact hs
-
-theorem runRound_xv {DX : Path → G.XVal → Prop} (l : List Path) (s : State) (hs : XvGood DX s) :
-    XvGood DX (runRound s l).1 := by
-  induction l generalizing s with
-  | nil => exact hs
-  | cons p ps ih =>
-    have h2 := attemptItem_xv s p hs
-    unfold runRound
-    split
-    · next s1 ha => rw [ha] at h2; exact ih s1 h2
-    · next s1 e _ ha => rw [ha] at h2; exact h2
-
-theorem resolveLoop_xv {DX : Path → G.XVal → Prop} (prio : List Path) (fuel : Nat) (s : State) (hs : XvGood DX s)
-    (s' : State) (hl : resolveLoop prio fuel s = .ok s') : XvGood DX s' := by
-  induction fuel generalizing s with
-  | zero => simp [resolveLoop] at hl
-  | succ n ih =>
-    unfold resolveLoop at hl
-    simp only [] at hl
-    split at hl
-    · cases hl; exact hs
-    · have hr2 := runRound_xv (s.reg.unresolved prio) s hs
-      split at hl
-      · next s1 h1 =>
-        rw [h1] at hr2
-        split at hl
-        · cases hl
-        · exact ih s1 hr2 hl
-      · cases hl
-      · cases hl
-      · cases hl
-
-theorem addModule_xv {DX : Path → G.XVal → Prop} (s s' : State) (m : G.Module) (path : Path) (hs : XvGood DX s)
-    (hD : ∀ gx ∈ m.xvals, DX path gx) (h : s.addModule m path = .ok s') : XvGood DX s' := by
-  obtain ⟨xvals, doc, s2, hx, h1, h2⟩ := C14.addModule_inv s s' m path h
-  have k0 : XvGood DX (s.putModule path (C14.newMod m path xvals doc)) := by
-    intro e he x hxm
-    simp only [State.putModule, List.mem_cons, List.mem_filter] at he
-    rcases he with rfl | ⟨he, _⟩
-    · obtain ⟨gx, hgx, hstep⟩ := mapM'_mem _ _ _ hx x hxm
-      exact ⟨gx, hD gx hgx, C15.xvalStep_ok gx x hstep⟩
-    · exact hs e he x hxm
-  have k2 : XvGood DX s2 :=
-    (C12.PO.foldlM_inv (S := fun _ => True) (XvGood DX) (C14.defStep path) m.defs _ k0
-      (fun b d _ hb => ⟨fun _ _ => trivial, fun b' hb' => by
-        obtain ⟨_, i, _, ha⟩ := C14.defStep_spec path b d b' hb'
-        exact addItem_xv b b' i hb ha⟩)).2 s2 h1
-  exact (C12.PO.foldlM_inv (S := fun _ => True) (XvGood DX) (C14.xtypeStep path) m.xtypes _ k2
-      (fun b xt _ hb => ⟨fun _ _ => trivial, fun b' hb' => by
-        obtain ⟨_, i, _, ha⟩ := C14.xtypeStep_spec path b xt b' hb'
-        exact addItem_xv b b' i hb ha⟩)).2 s' h2
-
-theorem initialState_xv (c : Case) (s : State) (h : c.initialState = .ok s) : XvGood (DeclaredX c) s := by
-  unfold Case.initialState at h
-  refine (C12.PO.foldlM_inv (S := fun _ => True) (XvGood (DeclaredX c)) _ c.modules _ (new_xv _ c.ps) ?_).2 s h
-  intro b me hme hbI
-  cases me with
-  | ast path file m =>
-    exact ⟨fun _ _ => trivial, fun b' hb' => addModule_xv b b' m path hbI (fun gx hgx => ⟨file, m, hme, hgx⟩) hb'⟩
-  | text f t => exact ⟨fun _ _ => trivial, fun _ h => by cases h⟩
-
 /-- `resolve_extern_values` keeps every extern value and only fills in its type, resolved in the module's scope -/
 theorem resolveXVals_inv (reg : Registry) (m m' : Mod) (h : resolveXVals reg m = .ok m') :
-    m'.scope = m.scope ∧ m'.defPaths = m.defPaths ∧
+    m'.scope = m.scope ∧ m'.defPaths = m.defPaths ∧ m'.impls = m.impls ∧
     ∀ x' ∈ m'.xvals, ∃ x ∈ m.xvals, ∃ t, reg.resolveTy m.scope x.gty = .ok t ∧ x' = { x with ty := some t } := by
   unfold resolveXVals at h
   split at h
   · next xvals hx =>
     simp only [Res.ok.injEq] at h
     subst h
-    refine ⟨rfl, rfl, ?_⟩
+    refine ⟨rfl, rfl, rfl, ?_⟩
     intro x' hx'
     obtain ⟨x, hxm, hstep⟩ := mapM'_mem _ _ _ hx x' hx'
     refine ⟨x, hxm, ?_⟩
@@ -474,16 +564,25 @@ theorem resolveXVals_inv (reg : Registry) (m m' : Mod) (h : resolveXVals reg m =
 
 /-- **extern values of every accepted case**: every extern value of every module of the final state is the conversion
     of an extern value written in a module of the case (under that module's path), with its type resolved in the
-    module's scope in the final registry -/
+    module's scope in the final registry.  (Needs neither the pointer width nor the literal bound.) -/
 theorem case_xvals (c : Case) (s : State) (h : c.run = .ok s) :
     ∀ e ∈ s.modules, ∀ x ∈ e.2.xvals, ∃ gx, DeclaredX c e.1 gx ∧ XvOf gx x ∧
       ∃ t, s.reg.resolveTy e.2.scope x.gty = .ok t ∧ x.ty = some t := by
   unfold Case.run at h
   split at h
   · next s0 hs0 =>
-    have h0 := initialState_xv c s0 hs0
+    have h0 : ModsGood (ModOf c) s0 := by
+      unfold Case.initialState at hs0
+      refine (C12.PO.foldlM_inv (S := fun _ => True) (ModsGood (ModOf c)) _ c.modules _
+        (new_mods (modOf_blind c) (modOf_root c) c.ps) ?_).2 s0 hs0
+      intro b me hme hbI
+      cases me with
+      | ast path file m =>
+        exact ⟨fun _ _ => trivial, fun b' hb' =>
+          addModule_mods (modOf_blind c) b b' m path hbI (fun xvals doc hx => modOf_new c path file m hme xvals doc hx) hb'⟩
+      | text f t => exact ⟨fun _ _ => trivial, fun _ h => by cases h⟩
     obtain ⟨s1, hl, ms, hms, rfl⟩ := C09.build_ok_inv s0 c.prio s h
-    have h1 := resolveLoop_xv c.prio _ s0 h0 s1 hl
+    have h1 : ModsGood (ModOf c) s1 := resolveLoop_mods (modOf_blind c) c.prio _ s0 h0 s1 hl
     intro e he x hx
     simp only at he hx
     obtain ⟨e0, he0, hstep⟩ := mapM'_mem _ _ _ hms e he
@@ -491,15 +590,14 @@ theorem case_xvals (c : Case) (s : State) (h : c.run = .ok s) :
     · next m' hm' =>
       simp only [Res.ok.injEq] at hstep
       subst hstep
-      obtain ⟨hsc, _, hall⟩ := resolveXVals_inv s1.reg e0.2 m' hm'
+      obtain ⟨hsc, _, _, hall⟩ := resolveXVals_inv s1.reg e0.2 m' hm'
       obtain ⟨x0, hx0, t, ht, rfl⟩ := hall x hx
-      obtain ⟨gx, hgx, a, h1', h2', h3', h4', h5', h6'⟩ := h1 e0 he0 x0 hx0
+      obtain ⟨gx, hgx, a, h1', h2', h3', h4', h5', h6'⟩ := (h1 e0 he0).1 x0 hx0
       exact ⟨gx, hgx, ⟨a, h1', h2', h3', h4', h5', h6'⟩, t, by rw [hsc]; exact ht, rfl⟩
     · exact (C14.cast_ne_ok _ _ hstep).elim
   · cases h
   · cases h
   · cases h
-
 
 /-! ### the full decomposition of an accepted `type_definition::build` -/
 
@@ -705,7 +803,8 @@ theorem case_type_origin (c : Case) (hps : c.ps = 4 ∨ c.ps = 8) (hb : C12.Case
     (∃ (reg0 : Registry) (owner : Path) (vis : Vis) (fns : List SFunc),
       buildVftableItem reg0 owner vis fns = some i ∧ i.path = p) ∨
     ∃ (s0 s1 : State) (item : G.Item) (d : G.TypeDef),
-      C12.StateOkB s0 ∧ Exec.Inv s0 ∧ Declared c p item ∧ s0.reg.get p = some (declItem p item) ∧
+      C12.StateOkB s0 ∧ Exec.Inv s0 ∧ ModsGood (ModOf c) s0 ∧ Declared c p item ∧
+      s0.reg.get p = some (declItem p item) ∧
       item.inner = .type d ∧ buildType s0 p item.vis d = (s1, .ok r) ∧ C02.Ext s1.reg s.reg ∧
       i = builtItem p item r := by
   have hgood := (case_good c hps hb s h p i hg).2 r hs
@@ -713,8 +812,9 @@ theorem case_type_origin (c : Case) (hps : c.ps = 4 ∨ c.ps = 8) (hb : C12.Case
   | predef nm hm hp hi => subst hi; cases hc
   | extern size align hi => subst hi; cases hc
   | vftable reg0 owner vis fns hi hp => exact Or.inl ⟨reg0, owner, vis, fns, hi, hp⟩
-  | type s0 s1 item d hok hinv hD hget hd hb' he hi => exact Or.inr ⟨s0, s1, item, d, hok, hinv, hD, hget, hd, hb', he, hi⟩
-  | enum s0 item d hok hinv hD hget hd hb' he hi =>
+  | type s0 s1 item d hok hinv hQ hD hget hd hb' he hi =>
+    exact Or.inr ⟨s0, s1, item, d, hok, hinv, hQ, hD, hget, hd, hb', he, hi⟩
+  | enum s0 item d hok hinv hQ hD hget hd hb' he hi =>
     obtain ⟨ed, _, hin', _⟩ := C02.buildEnum_inv s0 p d r hb'
     rw [hin'] at hin; cases hin
 
@@ -725,7 +825,8 @@ theorem case_enum_origin (c : Case) (hps : c.ps = 4 ∨ c.ps = 8) (hb : C12.Case
     (h : c.run = .ok s) (p : Path) (i : ItemDef) (r : Resolved) (ed : EnumDefn)
     (hg : s.reg.get p = some i) (hs : i.state = .res r) (hin : r.inner = .enum ed) :
     ∃ (s0 : State) (item : G.Item) (d : G.EnumDef),
-      C12.StateOkB s0 ∧ Exec.Inv s0 ∧ Declared c p item ∧ s0.reg.get p = some (declItem p item) ∧
+      C12.StateOkB s0 ∧ Exec.Inv s0 ∧ ModsGood (ModOf c) s0 ∧ Declared c p item ∧
+      s0.reg.get p = some (declItem p item) ∧
       item.inner = .enum d ∧ buildEnum s0 p d = .ok r ∧ C02.Ext s0.reg s.reg ∧ i = builtItem p item r := by
   have hgood := (case_good c hps hb s h p i hg).2 r hs
   cases hgood with
@@ -744,10 +845,10 @@ theorem case_enum_origin (c : Case) (hps : c.ps = 4 ∨ c.ps = 8) (hb : C12.Case
     simp only [IState.res.injEq] at hs
     subst hs
     cases hin
-  | type s0 s1 item d hok hinv hD hget hd hb' he hi =>
+  | type s0 s1 item d hok hinv hQ hD hget hd hb' he hi =>
     obtain ⟨td, _, _, _, _, _, htd, _⟩ := C01.buildType_layout s0 s1 p item.vis d r hb'
     rw [htd] at hin; cases hin
-  | enum s0 item d hok hinv hD hget hd hb' he hi => exact ⟨s0, item, d, hok, hinv, hD, hget, hd, hb', he, hi⟩
+  | enum s0 item d hok hinv hQ hD hget hd hb' he hi => exact ⟨s0, item, d, hok, hinv, hQ, hD, hget, hd, hb', he, hi⟩
 
 
 /-! ### what the layout core was handed, read in a later registry -/
@@ -992,5 +1093,521 @@ theorem fieldOffset_inv (reg : Registry) (td : TypeDefn) (b : String) (o : Nat)
     | some offs =>
       simp only [hk, ho] at h
       exact ⟨k, offs, rfl, rfl, h⟩
+
+
+theorem paddingType_prims (reg : Registry) (hp : C02.PrimsOk reg) (n : Nat) :
+    reg.paddingType n = .ok (.arr (.raw ["u8"]) n) := by
+  have hc : reg.contains ["u8"] = true := by
+    unfold Registry.contains
+    rw [hp ("u8", 1) (by decide)]
+    rfl
+  unfold Registry.paddingType Registry.resolveString
+  simp only [List.filter_nil, List.reverse_nil, List.find?_nil, List.map_cons, List.nil_append, List.map_nil,
+    List.find?_cons, hc]
+
+theorem nameRegions_congr (reg reg' : Registry) (hp : ∀ n, reg.paddingType n = reg'.paddingType n) (off : Nat)
+    (placed : List (Placed Region)) : nameRegions reg off placed = nameRegions reg' off placed := by
+  induction placed generalizing off with
+  | nil => rfl
+  | cons q qs ih => simp only [nameRegions, hp, ih]
+
+/-- naming reads the registry only for `u8`: the same in every registry whose predefined types are intact -/
+theorem nameRegions_prims (reg reg' : Registry) (hp : C02.PrimsOk reg) (hp' : C02.PrimsOk reg') (off : Nat)
+    (placed : List (Placed Region)) : nameRegions reg off placed = nameRegions reg' off placed :=
+  nameRegions_congr reg reg' (fun n => by rw [paddingType_prims reg hp, paddingType_prims reg' hp']) off placed
+
+/-! ### the vftable of every emitted struct of an accepted case -/
+
+/-- **the vftable of every emitted struct**: a generated vftable struct, or built from a definition written in the case;
+    then the type's table and pointer are one of the five `VftCases`, with the table of the first `#[base]` field read in
+    the *final* registry; the fields of the emitted struct are the named placement (`resolve_regions`, read in the final
+    registry) of the pointer region and the declared fields; an own pointer is the first field, at offset 0 -/
+theorem case_vft_master (c : Case) (hps : c.ps = 4 ∨ c.ps = 8) (hb : C12.CaseBounded c) (s : State)
+    (h : c.run = .ok s) (p : Path) (i : ItemDef) (r : Resolved) (td : TypeDefn)
+    (hg : s.reg.get p = some i) (hs : i.state = .res r) (hin : r.inner = .type td) (hc : i.cat = .defined) :
+    (∃ (reg0 : Registry) (owner : Path) (vis : Vis) (fns : List SFunc),
+      buildVftableItem reg0 owner vis fns = some i ∧ i.path = p) ∨
+    ∃ (item : G.Item) (d : G.TypeDef) (s0 : State) (module : Mod) (ta : TypeAttrs) (sa : StmtAcc) (vptr : Option Region)
+      (placed : List (Placed Region)),
+      Declared c p item ∧ item.inner = .type d ∧ s0.moduleFor p = some module ∧ C02.Ext s0.reg s.reg ∧
+      Res.foldlM typeAttrStep {} d.attrs = .ok ta ∧
+      Res.foldlM (stmtStep s0.reg module.scope) {} (d.stmts.zipIdx.map fun q => (q.2, q.1)) = .ok sa ∧
+      resolve (vptr.map (toPField s.reg none)) (sa.pending.map fun q => toPField s.reg q.1 q.2) ta.targetSize
+        = .ok (placed, r.size) ∧
+      nameRegions s.reg 0 placed = .ok td.regions ∧
+      (∀ st gfns, d.stmts[0]? = some st → st.field = .vftable gfns →
+        ∃ size out, vftableSizeAttr st.attrs = .ok size ∧ convertVfuncs s0.reg module.scope size gfns = .ok out ∧
+          sa.vfns = some out) ∧
+      ((∀ st, d.stmts[0]? = some st → C01.isFieldStmt st = true) → sa.vfns = none) ∧
+      (∀ vpath, vptr = some (C06.ownPointer vpath) →
+        td.regions.head? = some (C06.ownPointer vpath) ∧ Exec.fieldOffset s.reg td vftableFieldName = some 0) ∧
+      VftCases s.reg p ((sa.pending.map (·.2)).find? (·.isBase)) sa.vfns td.vft vptr := by
+  rcases case_type_origin c hps hb s h p i r td hg hs hin hc with hv | ⟨s0, s1, item, d, hok, hinv, hQ, hD, hget, hd, hbt, he, hi⟩
+  · exact Or.inl hv
+  · right
+    obtain ⟨module, module1, ta, sa, vft, vregion, placed, acc1, acc2, td', hmod, hmod1, hdoc, hta, hsa, hbv, hres, hn, hal,
+      hacc1, hacc2, hin', hfns, hvft, _⟩ := buildType_full s0 s1 p item.vis d r hbt
+    rw [hin] at hin'
+    cases hin'
+    have he01 := Exec.buildVftable_ext s0 s1 p item.vis _ _ _ hbv
+    have hprims1 : C02.PrimsOk s1.reg := Exec.primsOk_ext he01 hinv.1.prims
+    obtain ⟨hpv, hpf⟩ := pfields_ext he vregion sa.pending ta.targetSize placed r.size hres
+    refine ⟨item, d, s0, module, ta, sa, vregion, placed, hD, hd, hmod, he01.trans he, hta, hsa, by rw [hpv, hpf]; exact hres,
+      ?_, ?_, ?_, ?_, ?_⟩
+    · rw [← nameRegions_prims s1.reg s.reg hprims1 (Exec.primsOk_ext he hprims1)]
+      exact hn
+    · intro st gfns hst hf
+      exact Exec.stmts_vfns_of_block s0.reg module.scope d.stmts sa hsa st gfns hst hf
+    · exact stmts_vfns_none s0.reg module.scope d.stmts sa hsa
+    · intro vpath hvp
+      subst hvp
+      obtain ⟨ho, hhead⟩ := Exec.own_pointer_offset s1.reg hprims1 (C06.ownPointer vpath) sa.pending ta.targetSize placed
+        r.size td rfl rfl hres hn
+      exact ⟨hhead, Exec.fieldOffset_mono he td _ 0 ho⟩
+    · -- the base's size was known when the type was laid out, so its table reads the same in the final registry
+      have hsz : ∀ b, (sa.pending.map (·.2)).find? (·.isBase) = some b → ∃ n, b.ty.size s1.reg = .ok (some n) := by
+        intro b hb'
+        have hmem : b ∈ sa.pending.map (·.2) := List.mem_of_find?_eq_some hb'
+        obtain ⟨q, hq, rfl⟩ := List.mem_map.mp hmem
+        exact (resolve_sizes _ _ _ _ _ hres).2 (toPField s1.reg q.1 q.2) (List.mem_map.mpr ⟨q, hq, rfl⟩)
+      have tr : ∀ x, baseVftable s1.reg ((sa.pending.map (·.2)).find? (·.isBase)) = .ok x →
+          baseVftable s.reg ((sa.pending.map (·.2)).find? (·.isBase)) = .ok x :=
+        fun x hx => baseVftable_ext he _ hsz x hx
+      rw [hvft]
+      rcases buildVftable_cases s0 s1 p item.vis _ sa.vfns vft vregion hbv with
+        ⟨h1, _, h3, h4, h5⟩ | ⟨h1, _, h3, bn, bv, h5, h6⟩ | ⟨fns, h1, h2, _, h4, h5⟩ |
+        ⟨fns, vpath, h1, h2, h3, h4, h5⟩ | ⟨fns, vpath, bn, bv, h1, h2, h3, h4, h5, h6, h7⟩
+      · exact Or.inl ⟨h1, h3, h4, tr _ h5⟩
+      · exact Or.inr (Or.inl ⟨h1, h3, bn, bv, tr _ h5, h6⟩)
+      · exact Or.inr (Or.inr (Or.inl ⟨fns, h1, h2, h4, h5⟩))
+      · exact Or.inr (Or.inr (Or.inr (Or.inl ⟨fns, vpath, h1, h2, tr _ h3, h4, h5⟩)))
+      · exact Or.inr (Or.inr (Or.inr (Or.inr ⟨fns, vpath, bn, bv, h1, h2, tr _ h3, h4, h5, h6, h7⟩)))
+
+
+/-! ### generated vftable structs; the kinds of items `build_type` / `build_enum` print -/
+
+/-- a generated vftable struct is a plain struct of function pointers: no doc, no methods, no table, no singleton,
+    no derives, not packed; it carries the owner's visibility -/
+theorem vftable_item_td (reg0 : Registry) (owner : Path) (vis : Vis) (fns : List SFunc) (i : ItemDef) (r : Resolved)
+    (td : TypeDefn) (h : buildVftableItem reg0 owner vis fns = some i) (hs : i.state = .res r) (hin : r.inner = .type td) :
+    td = { regions := fns.map (functionToRegion owner) } ∧ i.vis = vis ∧ i.cat = .defined ∧
+      r.size = fns.length * reg0.ps ∧ r.align = reg0.ps := by
+  unfold buildVftableItem at h
+  cases hvp : vftablePath owner with
+  | none => simp [hvp] at h
+  | some q =>
+    simp only [hvp, Option.map_some, Option.some.injEq] at h
+    subst h
+    simp only [IState.res.injEq] at hs
+    subst hs
+    simp only [SInner.type.injEq] at hin
+    subst hin
+    simp
+
+/-- what `build_type` prints: the singleton getter of the type's singleton address, or an item of another kind -/
+theorem typeItems_kinds (reg : Registry) (path : Path) (size align : Nat) (vis : Vis) (td : TypeDefn) :
+    ∀ x ∈ Emit.typeItems reg path size align vis td,
+      (∃ a, td.singleton = some a ∧ x = Sexp.mk "singleton-struct" [.str (path.getLast?.getD ""), Emit.visS vis, .int a]) ∨
+      Sexp.head? x ∈ [some "struct", some "sizecheck", some "impl", some "conflict", some "asref", some "asmut"] := by
+  intro x hx
+  unfold Emit.typeItems at hx
+  simp only [List.mem_append, List.mem_singleton, List.mem_flatMap] at hx
+  rcases hx with ((((hx | hx) | hx) | hx) | hx) | hx
+  · subst hx; right; rw [C15.head_mk]; decide
+  · split at hx
+    · rw [List.mem_singleton] at hx; subst hx; right; rw [C15.head_mk]; decide
+    · cases hx
+  · split at hx
+    · next a ha =>
+      rw [List.mem_singleton] at hx
+      exact Or.inl ⟨a, ha, hx⟩
+    · cases hx
+  · subst hx; right; rw [C15.head_mk]; decide
+  · obtain ⟨e, _, hx⟩ := hx
+    right
+    split at hx
+    · rw [List.mem_singleton] at hx; subst hx; rw [C15.head_mk]; decide
+    · simp only [List.mem_cons, List.not_mem_nil, or_false] at hx
+      rcases hx with hx | hx <;> (subst hx; rw [C15.head_mk]; decide)
+  · right
+    simp only [List.mem_cons, List.not_mem_nil, or_false] at hx
+    rcases hx with hx | hx <;> (subst hx; rw [C15.head_mk]; decide)
+
+/-- what `build_enum` prints: the singleton getter of the enum's singleton address, or an item of another kind -/
+theorem enumItems_kinds (path : Path) (size : Nat) (vis : Vis) (ed : EnumDefn) :
+    ∀ x ∈ Emit.enumItems path size vis ed,
+      (∃ a, ed.singleton = some a ∧ x = Sexp.mk "singleton-enum" [.str (path.getLast?.getD ""), Emit.visS vis, .int a]) ∨
+      Sexp.head? x ∈ [some "enum", some "sizecheck"] := by
+  intro x hx
+  unfold Emit.enumItems at hx
+  simp only [List.mem_append, List.mem_singleton] at hx
+  rcases hx with (hx | hx) | hx
+  · subst hx; right; rw [C15.head_mk]; decide
+  · split at hx
+    · rw [List.mem_singleton] at hx; subst hx; right; rw [C15.head_mk]; decide
+    · cases hx
+  · split at hx
+    · next a ha =>
+      rw [List.mem_singleton] at hx
+      exact Or.inl ⟨a, ha, hx⟩
+    · cases hx
+
+
+theorem head_ne (t t' : String) (xs : List Sexp) (hne : t ≠ t') : Sexp.head? (Sexp.mk t xs) ≠ some t' := by
+  rw [C15.head_mk]
+  intro h
+  cases h
+  exact hne rfl
+
+
+/-! ### every function of every emitted struct of an accepted case -/
+
+theorem parent_append (path : Path) (name : String) : Path.parent? (path ++ [name]) = some path := by
+  unfold Path.parent?
+  simp
+
+/-- the functions of the merged function block of a type come from the stored blocks keyed by the type's path -/
+theorem implFor_mem (md : Mod) (p : Path) (im : G.Impl) (h : md.implFor p = some im) :
+    ∀ gf ∈ im.fns, ∃ ib ∈ md.impls, ib.1 = p ∧ gf ∈ ib.2.fns := by
+  intro gf hgf
+  have hm := C05.impl_blocks_merged md p
+  rw [h] at hm
+  simp only [Option.map_some, Option.getD_some] at hm
+  rw [hm] at hgf
+  simp only [List.mem_flatMap, List.mem_map, List.mem_filter, beq_iff_eq] at hgf
+  obtain ⟨blk, ⟨ib, ⟨hib, hk⟩, rfl⟩, hgf⟩ := hgf
+  exact ⟨ib, hib, hk, hgf⟩
+
+/-- the module of a path after a build step is the module before it, up to its definition paths -/
+theorem reach2_moduleFor {s s1 : State} {owner : Path} (hr : C02.Reach2 s s1 owner) (p : Path) (m m1 : Mod)
+    (hm : s.moduleFor p = some m) (hm1 : s1.moduleFor p = some m1) : ∃ dp, m1 = { m with defPaths := dp } := by
+  rcases hr with rfl | ⟨vis, fns, item, _, _, ha⟩
+  · rw [hm] at hm1; cases hm1; exact ⟨m.defPaths, rfl⟩
+  · unfold State.moduleFor at hm hm1
+    cases hp : Path.parent? p with
+    | none => simp [hp] at hm
+    | some parent =>
+      simp only [hp] at hm hm1
+      obtain ⟨dp, hdp⟩ := C14.addItem_getModule s s1 item ha parent m hm
+      rw [hdp] at hm1
+      cases hm1
+      exact ⟨dp, rfl⟩
+
+/-- a function of the function block the stored module holds for a declared type is a function written in the case -/
+theorem declaredFn_of_impl (c : Case) (s : State) (hQ : ModsGood (ModOf c) s) (p : Path) (item : G.Item)
+    (hD : Declared c p item) (m : Mod) (hm : s.moduleFor p = some m) (im : G.Impl) (him : m.implFor p = some im)
+    (gf : G.Func) (hgf : gf ∈ im.fns) : DeclaredFn c p gf := by
+  obtain ⟨path, _, _, _, _, rfl⟩ := hD
+  unfold State.moduleFor at hm
+  rw [parent_append] at hm
+  simp only [] at hm
+  have hmem := C14.mem_of_lookup s.modules path m hm
+  obtain ⟨_, himpls⟩ := hQ (path, m) hmem
+  obtain ⟨ib, hib, hk, hgf'⟩ := implFor_mem m _ im him gf hgf
+  obtain ⟨blk, hblk, rfl⟩ := himpls ib hib
+  exact ⟨path, blk, hblk, hk.symm, hgf'⟩
+
+/-- the slots of a converted vftable block: slot `k` holds the function built from one of the block's functions, or the
+    placeholder of slot `k` -/
+theorem convertVfuncs_slots (reg : Registry) (scope : List Path) (size : Option Nat) (gfns : List G.Func) (out : List SFunc)
+    (h : convertVfuncs reg scope size gfns = .ok out) :
+    ∀ k f, out[k]? = some f → (∃ gf ∈ gfns, buildFunction reg scope true gf = .ok f) ∨ f = placeholderFn k := by
+  obtain ⟨pos, built, len, _, hbuilt, hlen, _, _, hz, hph⟩ := C04.slots reg scope size gfns out h
+  obtain ⟨hl, hpt⟩ := C15.mapM'_ok _ gfns built hbuilt
+  intro k f hk
+  by_cases hmem : k ∈ pos
+  · left
+    obtain ⟨j, hj, hje⟩ := List.getElem_of_mem hmem
+    have hjb : j < built.length := by rw [← hlen]; exact hj
+    have hjg : j < gfns.length := by rw [← hl]; exact hjb
+    have hzip : (k, built[j]) ∈ pos.zip built := by
+      rw [List.mem_iff_getElem?]
+      refine ⟨j, ?_⟩
+      rw [List.getElem?_zip_eq_some]
+      exact ⟨by rw [List.getElem?_eq_getElem hj, hje], List.getElem?_eq_getElem hjb⟩
+    have := hz _ hzip
+    simp only [] at this
+    rw [hk] at this
+    cases this
+    exact ⟨gfns[j], List.getElem_mem _, hpt j hjg hjb⟩
+  · right
+    have hlt : k < out.length := (List.getElem?_eq_some_iff.mp hk).1
+    have := hph k hlt hmem
+    rw [hk] at this
+    cases this
+    rfl
+
+/-- **every function of every emitted struct**: a generated vftable struct has none; otherwise the struct was built
+    from a definition written in the case, and
+
+    * every associated function is built (`function::build`) from a function written in a function block for this type
+      in the case, or is a copy of a function `f0` of the type of one of its `#[base]` fields – as found in the final
+      registry – with name and body rewritten (same docs, visibility, parameters, return type, convention);
+    * if the definition starts with a vftable block, the block converts to a table `out`, which is the type's table if it
+      has one (it has one when the type has a parent path, and then the generated struct `<T>Vftable` of the final
+      registry has one function-pointer field per slot of `out`), and every slot holds the function built from a function
+      of the block or that slot's placeholder. -/
+theorem case_fns_master (c : Case) (hps : c.ps = 4 ∨ c.ps = 8) (hb : C12.CaseBounded c) (s : State)
+    (h : c.run = .ok s) (p : Path) (i : ItemDef) (r : Resolved) (td : TypeDefn)
+    (hg : s.reg.get p = some i) (hs : i.state = .res r) (hin : r.inner = .type td) (hc : i.cat = .defined) :
+    ((∃ (reg0 : Registry) (owner : Path) (vis : Vis) (fns : List SFunc),
+        buildVftableItem reg0 owner vis fns = some i ∧ i.path = p) ∧ td.fns = [] ∧ td.vft = none) ∨
+    ∃ (item : G.Item) (d : G.TypeDef) (s0 s1 : State) (module : Mod),
+      Declared c p item ∧ item.inner = .type d ∧ s0.moduleFor p = some module ∧ C02.Ext s0.reg s1.reg ∧
+      C02.Ext s1.reg s.reg ∧
+      (∀ f ∈ td.fns,
+        (∃ gf, DeclaredFn c p gf ∧ buildFunction s1.reg module.scope false gf = .ok f) ∨
+        (∃ rg ∈ td.regions, ∃ (b : String) (bp : Path) (btd : TypeDefn) (f0 : SFunc),
+          rg.isBase = true ∧ rg.name = some b ∧ rg.ty = .data (.raw bp) ∧ Exec.typeDefn? s.reg bp = some btd ∧
+          (f0 ∈ btd.fns ∨ ∃ v, btd.vft = some v ∧ f0 ∈ v.fns) ∧ f0.vis = .pub ∧
+          f.doc = f0.doc ∧ f.vis = f0.vis ∧ f.args = f0.args ∧ f.ret = f0.ret ∧ f.cc = f0.cc ∧
+          f.body = .field b f0.name)) ∧
+      (∀ st gfns, d.stmts[0]? = some st → st.field = .vftable gfns →
+        ∃ size out, vftableSizeAttr st.attrs = .ok size ∧ convertVfuncs s0.reg module.scope size gfns = .ok out ∧
+          (∀ v, td.vft = some v → v.fns = out) ∧
+          (∀ vpath, vftablePath p = some vpath →
+            (∃ v, td.vft = some v ∧ v.fns = out ∧ v.ty = .cptr (.raw vpath)) ∧
+            Exec.typeDefn? s.reg vpath = some { regions := out.map (functionToRegion p) }) ∧
+          ∀ k f, out[k]? = some f →
+            (∃ gf ∈ gfns, buildFunction s0.reg module.scope true gf = .ok f) ∨ f = placeholderFn k) := by
+  rcases case_type_origin c hps hb s h p i r td hg hs hin hc with
+    ⟨reg0, owner, vis, fns, hv, hp⟩ | ⟨s0, s1, item, d, hok, hinv, hQ, hD, hget, hd, hbt, he, hi⟩
+  · obtain ⟨h1, h2⟩ := Exec.vftable_item_plain reg0 owner vis fns i r td hv hs hin
+    exact Or.inl ⟨⟨reg0, owner, vis, fns, hv, hp⟩, h1, h2⟩
+  · right
+    obtain ⟨module, module1, ta, sa, vft, vregion, placed, acc1, acc2, td', hmod, hmod1, hdoc, hta, hsa, hbv, hres, hn, hal,
+      hacc1, hacc2, hin', hfns, hvft, _⟩ := buildType_full s0 s1 p item.vis d r hbt
+    rw [hin] at hin'
+    cases hin'
+    have he01 := Exec.buildVftable_ext s0 s1 p item.vis _ _ _ hbv
+    have hreach := C02.buildType_reach2 s0 p item.vis d
+    rw [hbt] at hreach
+    simp only [] at hreach
+    obtain ⟨dp, hm1⟩ := reach2_moduleFor hreach p module module1 hmod hmod1
+    have hscope : module1.scope = module.scope := by rw [hm1]; rfl
+    have himpl : module1.implFor p = module.implFor p := by rw [hm1]; rfl
+    refine ⟨item, d, s0, s1, module, hD, hd, hmod, he01, he, ?_, ?_⟩
+    · intro g hgm
+      rw [hfns] at hgm
+      rw [hscope, himpl] at hacc2
+      have hsplit : g ∈ acc1.fns ∨ ∃ gf, DeclaredFn c p gf ∧ buildFunction s1.reg module.scope false gf = .ok g := by
+        cases him : module.implFor p with
+        | none =>
+          rw [him] at hacc2
+          simp only [addImplFns, Res.ok.injEq] at hacc2
+          subst hacc2
+          exact Or.inl hgm
+        | some im =>
+          rw [him] at hacc2
+          obtain ⟨built, hbuilt, hfns2⟩ := C05.impl_functions_all_present s1.reg module.scope im acc1 acc2 hacc2
+          rw [hfns2] at hgm
+          rcases List.mem_append.mp hgm with hg1 | hg1
+          · exact Or.inl hg1
+          · right
+            obtain ⟨gf, hgf, hbf⟩ := mapM'_mem _ _ _ hbuilt g hg1
+            exact ⟨gf, declaredFn_of_impl c s0 hQ p item hD module hmod im him gf hgf, hbf⟩
+      rcases hsplit with hg1 | hdecl
+      · rcases Exec.injectBases_forwarders s1.reg td.regions _ acc1 hacc1 g hg1 with hnil | hfw
+        · cases hnil
+        · right
+          obtain ⟨rg, hrg, hbase, b, bp, btd, fs, used, hname, hrty, hbtd, hfs, hspec⟩ := hfw
+          have hadd : g ∈ (addFunctions b { fns := [], used := used } fs).fns := by
+            rw [(C07.addFunctions_spec b { fns := [], used := used } fs).1]
+            exact List.mem_append_right _ hspec
+          rcases C17.inherited_copy_keeps_doc b { fns := [], used := used } fs g hadd with hnil | ⟨f0, hf0, hpub, k1, k2, k3, k4, k5, k6⟩
+          · cases hnil
+          · refine ⟨rg, hrg, b, bp, btd, f0, hbase, hname, hrty, Exec.typeDefn?_mono he bp btd hbtd, ?_, hpub, k1, k2, k3, k4,
+              k5, k6⟩
+            rcases hfs with rfl | ⟨v, hv, rfl⟩
+            · exact Or.inl hf0
+            · exact Or.inr ⟨v, hv, hf0⟩
+      · exact Or.inl hdecl
+    · intro st gfns hst hf
+      obtain ⟨size, out, hsize, hconv, hvfns⟩ := Exec.stmts_vfns_of_block s0.reg module.scope d.stmts sa hsa st gfns hst hf
+      refine ⟨size, out, hsize, hconv, ?_, ?_, convertVfuncs_slots s0.reg module.scope size gfns out hconv⟩
+      rotate_left
+      · intro vpath hvp
+        obtain ⟨td', module', size', out', v, hin', hmod', hsize', hconv', hv1, hv2, hv3, hvtd, _⟩ :=
+          Exec.built_type_vfunc_wrappers s0 s1 p item.vis d r hbt st gfns hst hf vpath hvp
+        rw [hin] at hin'
+        cases hin'
+        rw [hmod] at hmod'
+        cases hmod'
+        rw [hsize] at hsize'
+        cases hsize'
+        rw [hconv] at hconv'
+        cases hconv'
+        exact ⟨⟨v, hv1, hv2, hv3⟩, Exec.typeDefn?_mono he vpath _ hvtd⟩
+      intro v hv
+      rw [hvft] at hv
+      rw [hvfns] at hbv
+      rcases buildVftable_cases s0 s1 p item.vis _ (some out) vft vregion hbv with
+        ⟨h1, _⟩ | ⟨h1, _⟩ | ⟨fns, _, _, _, _, h5⟩ | ⟨fns, vpath, h1, _, _, _, h5⟩ | ⟨fns, vpath, bn, bv, h1, _, _, _, _, _, h7⟩
+      · cases h1
+      · cases h1
+      · rw [h5] at hv; cases hv
+      · cases h1; rw [h5] at hv; cases hv; rfl
+      · cases h1; rw [h7] at hv; cases hv; rfl
+
+
+/-! ### documentation, visibility and flags of every emitted struct -/
+
+theorem stmtStep_pending_src (reg : Registry) (scope : List Path) (acc acc' : StmtAcc) (idx : Nat) (st : G.Stmt)
+    (h : stmtStep reg scope acc (idx, st) = .ok acc') :
+    acc'.pending = acc.pending ∨ ∃ q, acc'.pending = acc.pending ++ [q] ∧ FieldOf reg scope st q := by
+  unfold stmtStep at h
+  simp only [] at h
+  split at h
+  · rename_i vis name ty hf
+    right
+    split at h
+    · cases h
+    · rename_i doc hdoc
+      split at h
+      · rename_i fa hfa
+        split at h
+        · cases h
+        · split at h
+          · rename_i t ht
+            generalize hid : (if (name != "_") = true then some name else none) = ident at h
+            split at h
+            · cases h
+            · cases h
+              exact ⟨_, rfl, vis, name, ty, fa, t, hf, hdoc, hfa, ht, by rw [hid]⟩
+          · exact absurd h (C01.cast_ne_ok _ _)
+      · exact absurd h (C01.cast_ne_ok _ _)
+  · left
+    split at h
+    · cases h
+    · split at h
+      · cases h
+      · split at h
+        · split at h
+          · cases h; rfl
+          · exact absurd h (C01.cast_ne_ok _ _)
+        · exact absurd h (C01.cast_ne_ok _ _)
+
+/-- every pending field of an accepted statement loop comes from a field statement of the definition -/
+theorem stmts_pending_src (reg : Registry) (scope : List Path) (l : List (Nat × G.Stmt)) (acc acc' : StmtAcc)
+    (h : Res.foldlM (stmtStep reg scope) acc l = .ok acc') :
+    ∀ q ∈ acc'.pending, q ∈ acc.pending ∨ ∃ e ∈ l, FieldOf reg scope e.2 q := by
+  induction l generalizing acc with
+  | nil => simp only [Res.foldlM, Res.ok.injEq] at h; subst h; exact fun q hq => Or.inl hq
+  | cons x l ih =>
+    unfold Res.foldlM at h
+    split at h
+    · next acc1 h1 =>
+      intro q hq
+      rcases ih acc1 h q hq with h2 | ⟨e, he, hfo⟩
+      · obtain ⟨idx, st⟩ := x
+        rcases stmtStep_pending_src reg scope acc acc1 idx st h1 with hp | ⟨q', hp, hfo⟩
+        · rw [hp] at h2; exact Or.inl h2
+        · rw [hp] at h2
+          rcases List.mem_append.mp h2 with h3 | h3
+          · exact Or.inl h3
+          · simp only [List.mem_singleton] at h3
+            subst h3
+            exact Or.inr ⟨(idx, st), List.mem_cons_self, hfo⟩
+      · exact Or.inr ⟨e, List.mem_cons_of_mem _ he, hfo⟩
+    all_goals cases h
+
+/-- the source of every placed region is the pointer region or one of the pending fields -/
+theorem placed_srcs (reg : Registry) (vptr : Option Region) (pending : List (Option Nat × Region))
+    (target : Option Nat) (placed : List (Placed Region)) (size : Nat)
+    (h : resolve (vptr.map (toPField reg none)) (pending.map fun p => toPField reg p.1 p.2) target = .ok (placed, size)) :
+    ∀ pl ∈ placed, ∀ rg, pl.src = some rg → vptr = some rg ∨ rg ∈ pending.map (·.2) := by
+  refine C02.resolve_all (fun pl => ∀ rg, pl.src = some rg → vptr = some rg ∨ rg ∈ pending.map (·.2))
+    (fun n rg hrg => by cases hrg) _ _ _ _ _ h ?_ ?_
+  · intro v hv sz _ rg hrg
+    cases vptr with
+    | none => cases hv
+    | some r0 =>
+      simp only [Option.map_some, Option.some.injEq] at hv
+      subst hv
+      simp only [toPField, Option.some.injEq] at hrg
+      exact Or.inl (by rw [hrg])
+  · intro f hf sz _ rg hrg
+    obtain ⟨q, hq, rfl⟩ := List.mem_map.mp hf
+    simp only [toPField, Option.some.injEq] at hrg
+    subst hrg
+    exact Or.inr (List.mem_map.mpr ⟨q, hq, rfl⟩)
+
+/-- every region of a named placement is generated (private, undocumented) or a named pointer region / pending field -/
+theorem regions_src (reg : Registry) (vptr : Option Region) (pending : List (Option Nat × Region))
+    (target : Option Nat) (placed : List (Placed Region)) (size : Nat) (regions : List Region)
+    (h : resolve (vptr.map (toPField reg none)) (pending.map fun p => toPField reg p.1 p.2) target = .ok (placed, size))
+    (hn : nameRegions reg 0 placed = .ok regions) :
+    ∀ rg ∈ regions, (rg.vis = .priv ∧ rg.doc = none) ∨ (rg.name.isSome ∧ (vptr = some rg ∨ rg ∈ pending.map (·.2))) := by
+  intro rg hrg
+  obtain ⟨k, hk, rfl⟩ := List.getElem_of_mem hrg
+  obtain ⟨hlen, _⟩ := C01.nameRegions_types_lem reg 0 placed regions hn
+  have hkp : k < placed.length := by rw [← hlen]; exact hk
+  obtain ⟨h1, h2, h3⟩ := C17.padding_private reg 0 placed regions hn k hkp hk
+  cases hsrc : placed[k].src with
+  | none => exact Or.inl (h1 hsrc)
+  | some r0 =>
+    cases hname : r0.name with
+    | none => exact Or.inl (h3 r0 hsrc hname)
+    | some nm =>
+      have hnm : r0.name.isSome := by rw [hname]; rfl
+      have e := h2 r0 hsrc hnm
+      rw [e]
+      exact Or.inr ⟨hnm, placed_srcs reg vptr pending target placed size h placed[k] (List.getElem_mem hkp) r0 hsrc⟩
+
+/-- **documentation, visibility and flags of every emitted struct**: a generated vftable struct (plain: no doc, no
+    flags; its fields are the slots), or built from a definition written in the case; then the struct has the
+    definition's docs, declared visibility, singleton and flags (the attribute loop over the definition's attributes),
+    and every field is generated (private, undocumented: padding, the vftable pointer) or is a named field statement of
+    the definition, with that statement's visibility, name and docs -/
+theorem case_attrs_master (c : Case) (hps : c.ps = 4 ∨ c.ps = 8) (hb : C12.CaseBounded c) (s : State)
+    (h : c.run = .ok s) (p : Path) (i : ItemDef) (r : Resolved) (td : TypeDefn)
+    (hg : s.reg.get p = some i) (hs : i.state = .res r) (hin : r.inner = .type td) (hc : i.cat = .defined) :
+    (∃ (reg0 : Registry) (owner : Path) (vis : Vis) (fns : List SFunc),
+        buildVftableItem reg0 owner vis fns = some i ∧ i.path = p ∧ i.vis = vis ∧
+        td = { regions := fns.map (functionToRegion owner) }) ∨
+    ∃ (item : G.Item) (d : G.TypeDef) (ta : TypeAttrs),
+      Declared c p item ∧ item.inner = .type d ∧ i = builtItem p item r ∧
+      G.docOf d.attrs = some td.doc ∧ Res.foldlM typeAttrStep {} d.attrs = .ok ta ∧
+      td.singleton = ta.singleton ∧ td.copyable = ta.copyable ∧ td.cloneable = ta.cloneable ∧
+      td.defaultable = ta.defaultable ∧ td.packed = ta.packed ∧
+      ∀ rg ∈ td.regions, (rg.vis = .priv ∧ rg.doc = none) ∨
+        ∃ st ∈ d.stmts, ∃ (vis : Vis) (name : String) (ty : G.Ty),
+          st.field = .field vis name ty ∧ rg.vis = vis ∧ rg.name = some name ∧ G.docOf st.attrs = some rg.doc := by
+  rcases case_type_origin c hps hb s h p i r td hg hs hin hc with
+    ⟨reg0, owner, vis, fns, hv, hp⟩ | ⟨s0, s1, item, d, hok, hinv, hQ, hD, hget, hd, hbt, he, hi⟩
+  · obtain ⟨htd, hvis, _⟩ := vftable_item_td reg0 owner vis fns i r td hv hs hin
+    exact Or.inl ⟨reg0, owner, vis, fns, hv, hp, hvis, htd⟩
+  · right
+    obtain ⟨module, module1, ta, sa, vft, vregion, placed, acc1, acc2, td', hmod, hmod1, hdoc, hta, hsa, hbv, hres, hn, hal,
+      hacc1, hacc2, hin', hfns, hvft, k1, k2, k3, k4, k5⟩ := buildType_full s0 s1 p item.vis d r hbt
+    rw [hin] at hin'
+    cases hin'
+    refine ⟨item, d, ta, hD, hd, hi, hdoc, hta, k1, k2, k3, k4, k5, ?_⟩
+    intro rg hrg
+    rcases regions_src s1.reg vregion sa.pending ta.targetSize placed r.size td.regions hres hn rg hrg with
+      hgen | ⟨hnm, hv | hpend⟩
+    · exact Or.inl hgen
+    · -- the own pointer is private and undocumented
+      left
+      rcases buildVftable_cases s0 s1 p item.vis _ sa.vfns vft vregion hbv with
+        ⟨_, _, hp, _⟩ | ⟨_, _, hp, _⟩ | ⟨_, _, _, _, hp, _⟩ | ⟨_, vpath, _, _, _, hp, _⟩ | ⟨_, _, _, _, _, _, _, _, _, hp, _⟩
+      · rw [hp] at hv; cases hv
+      · rw [hp] at hv; cases hv
+      · rw [hp] at hv; cases hv
+      · rw [hp] at hv; cases hv; exact ⟨rfl, rfl⟩
+      · rw [hp] at hv; cases hv
+    · right
+      obtain ⟨q, hq, rfl⟩ := List.mem_map.mp hpend
+      rcases stmts_pending_src s0.reg module.scope _ {} sa hsa q hq with hnil | ⟨e, he', vis, name, ty, fa, t, hf, hdoc', _, _, hqe⟩
+      · cases hnil
+      · obtain ⟨x, hx, rfl⟩ := List.mem_map.mp he'
+        have hst : x.1 ∈ d.stmts := (List.mem_zipIdx hx).2.2 ▸ List.getElem_mem _
+        refine ⟨x.1, hst, vis, name, ty, hf, ?_, ?_, hdoc'⟩
+        · rw [hqe]
+        · rw [hqe] at hnm ⊢
+          simp only at hnm ⊢
+          split
+          · rfl
+          · next hne => rw [if_neg hne] at hnm; cases hnm
 
 end PyxisVerif.CaseLift
